@@ -198,8 +198,8 @@ def c17_case(draw):
     # names live in different namespaces, an expression is evaluated over the axis sizes only
     entries = case["params"] + ([case["ret"]] if case["ret"] else [])
     toks_all = [gc.tok_from_json(j) for e in entries for j in e["tokens"]]
-    if draw(st.integers(0, 2)) == 0 and not any(t.base_kind == "sym" and dl.expr_holes(t.base) for t in toks_all):
-        sym_names = sorted({nm for t in toks_all if t.base_kind == "sym" for nm in dl.expr_names(t.base) if nm.isascii()})
+    sym_names = sorted({nm for t in toks_all if t.base_kind == "sym" for nm in dl.expr_names(t.base) if nm.isascii()})
+    if draw(st.integers(0, 5 if not sym_names else 1)) == 0 and not any(t.base_kind == "sym" and dl.expr_holes(t.base) for t in toks_all):
         pool = sym_names + [nm for nm in ["n", "a", "b", "c"] if nm not in sym_names]
         order = draw(st.permutations(range(n)))
         for idx, nm in zip(order, pool):
